@@ -3,7 +3,7 @@
    there are no masks, no global bin index, no sorted global lists (except the documented component layout of a
    staterror parameter shared by several channels: channels in sorted order). *)
 From Coq Require Import Bool Arith ZArith Lia String List.
-Require Import PV.Num PV.Sort PV.Spec.
+Require Import PV.Num PV.Sort PV.Spec PV.Impl.
 Import ListNotations.
 Local Open Scope list_scope.
 
@@ -51,4 +51,49 @@ Section Ref.
   (* channels laid out in sorted name order *)
   Definition sorted_channels : list (channel N) := ssort c_name (channels sp).
   Definition ref_expected : list V := flat_map (fun c => map (ref_rate c) (seq 0 (chan_nbins c))) sorted_channels.
+
+  (* ---- the likelihood template: one Poisson term per bin, one constraint term per constrained component ---- *)
+  Variable obs : string -> nat -> V.          (* observed count of bin b of the channel called name *)
+  Variable aux : string -> nat -> V.          (* auxiliary datum of component k of the parameter called name *)
+  Definition user_cfg (name : string) : option (parcfg N) := find (fun p => String.eqb (pc_name p) name) (parameters sp).
+  Definition user_sigmas2 (name : string) (k : nat) : option V :=
+    match user_cfg name with Some p => match pc_sigmas p with Some l => Some (nth k l 1 * nth k l 1) | None => None end | None => None end.
+  Definition user_factor (name : string) (k : nat) : option V :=
+    match user_cfg name with Some p => match pc_factors p with Some l => Some (nth k l 1) | None => None end | None => None end.
+  Definition rpos (x : V) : bool := nltb N 0 x.
+  Definition rzero (x : V) : bool := neqb N x 0.
+
+  (* staterror width of bin b of channel c: quadrature sum of the relative MC uncertainties of the samples carrying it *)
+  Definition stat_unc (s : sample N) (name : string) (b : nat) : V :=
+    match find (fun m => String.eqb (m_name m) name && mtype_eqb (m_type m) Staterror) (s_mods s) with
+    | Some m => match m_data m with MDList l => nth b l 0 | _ => 0 end | None => 0 end.
+  Definition stat_delta2 (name : string) (c : channel N) (b : nat) : V :=
+    let carriers := filter (fun s => has_mod s name Staterror) (c_samples c) in
+    let tot := rsum (map (fun s => nth b (s_data s) 0) carriers) in
+    let v := rsum (map (fun s => if rpos tot then (stat_unc s name b / tot) * (stat_unc s name b / tot) else 0) carriers) in
+    if rzero v then 1 else v.
+  Definition shapesys_tau (s : sample N) (unc : list V) (b : nat) : V :=
+    let nom := nth b (s_data s) 0 in let u := nth b unc 0 in
+    if rpos nom && rpos u then (nom * nom) / (u * u) else 1.
+
+  Definition names_with (t : mtype) : list string :=
+    nodup string_dec (flat_map (fun c => flat_map (fun s => flat_map (fun m => if mtype_eqb (m_type m) t then [m_name m] else []) (s_mods s)) (c_samples c)) (channels sp)).
+  Definition alpha_names : list string := nodup string_dec (names_with Normsys ++ names_with Histosys).
+
+  Definition ref_cterms : list (term N) :=
+    map (fun n => TNorm (aux n O) (theta n O) 1) alpha_names
+    ++ map (fun n => TNorm (aux n O) (theta n O) (match user_sigmas2 n O with Some v => v | None => 1 end)) (names_with Lumi)
+    ++ flat_map (fun n => flat_map (fun c => if chan_has c n Staterror then
+          map (fun b => let k := (stat_offset n c + b)%nat in
+                        TNorm (aux n k) (theta n k) (match user_sigmas2 n k with Some v => v | None => stat_delta2 n c b end))
+              (seq 0 (chan_nbins c)) else []) sorted_channels) (names_with Staterror)
+    ++ flat_map (fun c => flat_map (fun s => flat_map (fun m =>
+          match m_type m, m_data m with
+          | Shapesys, MDList unc => map (fun b => TPois (aux (m_name m) b)
+                 (theta (m_name m) b * (match user_factor (m_name m) b with Some f => f | None => shapesys_tau s unc b end)))
+                 (seq 0 (chan_nbins c))
+          | _, _ => [] end) (s_mods s)) (c_samples c)) (channels sp).
+  Definition ref_main_terms : list (term N) :=
+    flat_map (fun c => map (fun b => TPois (obs (c_name c) b) (ref_rate c b)) (seq 0 (chan_nbins c))) sorted_channels.
+  Definition ref_terms : list (term N) := ref_main_terms ++ ref_cterms.
 End Ref.
